@@ -26,7 +26,8 @@ CASE_TIMEOUT_S = 900
 STUBS = cv_sched.STUBS
 PROBES = ['kind_sched', 'kind_fault', 'kind_timeout', 'kind_oneshot', 'callNovelORF_nonempty',
           'callAltTranslation_nonempty', 'threads_gt_1', 'faulted_execution', 'retried_execution',
-          'index_dir_pool', 'peptides_checked', 'table_rows_checked', 'min_mw_gt_500', 'length_limits_nondefault']
+          'index_dir_pool', 'peptides_checked', 'table_rows_checked', 'min_mw_gt_500', 'length_limits_nondefault',
+          'oneshot_corpus_reference']
 RULE = ('every completed execution of: (sched) reference + perturbed callVariant executions of engine cv-sched; '
         '(fault) execution with injected unit failures under --skip-failed; (timeout) execution with virtual alarms '
         'and retries; (oneshot) callNovelORF and callAltTranslation on the generated reference with random flags. '
@@ -40,7 +41,7 @@ ASSUMPTIONS = [
 
 
 def n_cases(tier):
-    return 48 if tier == 'quick' else 4000
+    return 72 if tier == 'quick' else 4000
 
 
 def tasks(seed, tier, n):
@@ -206,7 +207,11 @@ def oneshot_cmd(cmd, ref, outp, cfg, flags):
 
 def run_oneshot(seed, task, out, only=None):
     rng = R.case_rng(seed, ENGINE, task['case'], 'oneshot')
-    case = cvcase.gen_case(rng, n_records=1)
+    if rng.random() < 0.3:
+        case = cvcase.gen_corpus_case(rng)       # real reference (GENCODE attributes present)
+        out['probes']['oneshot_corpus_reference'] = 1
+    else:
+        case = cvcase.gen_case(rng, n_records=1)
     # callNovelORF reads transcript.biotype: moPepGen.fake writes no gene_type attribute, so add one
     coding = {l[1:].split('|')[1] for l in case['texts']['proteome_fa'].splitlines() if l.startswith('>')}
     gtf_lines = []
